@@ -170,13 +170,16 @@ class C16(Check):
     technique = ("Coq proof over an executable model of hash.hpp / tuple_operators.hpp / unordered.hpp (nested induction over value trees, "
                  "64-bit word arithmetic written mod 2^64) + translator-checked constants (Tie_C16) + extraction-based differential test "
                  "of the exact 64-bit hash words, the six operators and container look-ups against the C++")
-    level_text = ("Sixteen theorems in Coq, for ALL values built from leaves, std::tuple, std::pair, std::variant, smart pointers and "
+    level_text = ("Eighteen theorems in Coq, for ALL values built from leaves, std::tuple, std::pair, std::variant, smart pointers and "
                   "tuple_operators types in any nesting, any leaf type and any std::hash: equal values hash equal; every hash is a 64-bit word; "
                   "hash_combine is injective in the combined value for a fixed seed (any magic constant / shifts), hence a changed LAST component, "
                   "pair.second or variant alternative value always changes the hash, and a changed component at any position changes the running "
                   "seed at that position; the six friend operators of tuple_operators<T> are exactly the textbook lexicographic predicates on the "
                   "member lists; exactly one of <, ==, > holds; < is transitive; <= is < or ==; a hash table that compares keys only when their "
-                  "hash words agree finds exactly the inserted keys (first payload). NOT claimed: collision-freedom beyond the running-seed "
+                  "hash words agree finds exactly the inserted keys (first payload); the hash has no history: in the model an object is nothing but "
+                  "its member list and t.hash() is recomputed from it on every call, so after any sequence of hash requests, in-place member "
+                  "assignments and whole-object assignments the hash is that of a freshly built object with the current members (hence of every equal "
+                  "value, however it came to be) - the driver exercises exactly such histories on the real P and Q. NOT claimed: collision-freedom beyond the running-seed "
                   "statement (that a change at an inner position or a swap of components survives the remaining combine steps holds only 'up to "
                   "rare collisions' and is exercised on the grid, not proved). The model is tied to /repo by (a) a translator that re-reads the "
                   "statement of hash_combine_impl (clang AST and lexically) and the initial seeds on every run, with vm_compute obligations that "
@@ -189,7 +192,10 @@ class C16(Check):
                   "checked on the grid only), == and < of the leaf types being an equivalence / strict total order (floating-point == on the grid; "
                   "NaN excluded), std::tuple / std::pair / std::variant relational operators as libstdc++ defines them (modelled by lex2/all2), "
                   "C++ overload resolution among the hash() overloads and ADL for the friend operators, std::unordered_set/map itself (modelled as "
-                  "'compare only entries with the same hash word'). Smart pointers: equality in the model is pointee equality (address equality "
+                  "'compare only entries with the same hash word'). That a real tuple_operators object carries no hidden state "
+                  "besides its members (what 'the hash has no history' says about the model) is tied to the code only by the history cases of the "
+                  "driver (member-wise / as_tuple() / copy / move changes after a first hash or container use, through copies, sets of 1..31 elements). "
+                  "Smart pointers: equality in the model is pointee equality (address equality "
                   "implies it); ordering of pointers is not modelled. The variant index is not hashed by the code (variant<int,long>{1} and {1L} "
                   "collide by construction) - allowed by the property. The correspondence is bounded-exhaustive + sampled, not proved")
     rule = ("values of 18 C++ types (5 tuple_operators structs incl. nested, empty and mixed-width ones; tuples, pairs, a variant, unique_ptr/"
